@@ -24,6 +24,8 @@ pub struct Script {
     pub answers: Vec<Option<bool>>,
     pub counts: Vec<u32>,
     pub order: Vec<usize>,
+    pub inits: Vec<u32>,
+    pub requires: Vec<u32>,
 }
 
 #[derive(Clone)]
@@ -37,6 +39,14 @@ impl Serialize for Operand {
     }
 }
 impl<P: Problem> Condition<P> for Operand {
+    fn init(&self, _p: &P, _s: &mut State<P>) -> ExecResult<()> {
+        self.script.lock().unwrap().inits[self.id] += 1;
+        Ok(())
+    }
+    fn require(&self, _p: &P, _r: &mahf::state::StateReq<P>) -> ExecResult<()> {
+        self.script.lock().unwrap().requires[self.id] += 1;
+        Ok(())
+    }
     fn evaluate(&self, _p: &P, _s: &mut State<P>) -> ExecResult<bool> {
         let mut g = self.script.lock().unwrap();
         g.counts[self.id] += 1;
@@ -187,10 +197,14 @@ fn formulas(depth: usize, arity: usize) -> Vec<F> {
 
 fn check_formula(f: &F, ans: &[Option<bool>]) -> Option<(String, String)> {
     let n = ans.len();
-    let script = Arc::new(Mutex::new(Script { answers: ans.to_vec(), counts: vec![0; n], order: vec![] }));
+    let script = Arc::new(Mutex::new(Script { answers: ans.to_vec(), counts: vec![0; n], order: vec![], inits: vec![0; n], requires: vec![0; n] }));
     let cond: Box<dyn Condition<TagP>> = f.build(&script);
     let mut st = state_with::<TagP>(vec![]);
-    let r = catch(|| cond.evaluate(&TagP, &mut st));
+    let r = catch(|| {
+        cond.init(&TagP, &mut st)?;
+        cond.require(&TagP, &st.requirements())?;
+        cond.evaluate(&TagP, &mut st)
+    });
     let exp = f.eval(ans);
     let g = script.lock().unwrap();
     let failing = ans.iter().any(|a| a.is_none());
@@ -200,6 +214,9 @@ fn check_formula(f: &F, ans: &[Option<bool>]) -> Option<(String, String)> {
         Err(p) => return Some((format!("{} panic", head), ctx(format!("panicked: {}", p)))),
         Ok(r) => r,
     };
+    if g.inits.iter().any(|c| *c != 1) || g.requires.iter().any(|c| *c != 1) {
+        return Some((format!("C10 logical root={} operand-lifecycle", f.root()), ctx(format!("initialisations per operand {:?}, requirement checks per operand {:?}: every operand must be initialised and checked exactly once", g.inits, g.requires))));
+    }
     if g.counts.iter().any(|c| *c > 1) {
         return Some((format!("{} operand-evaluated-twice", head), ctx(format!("evaluation counts {:?}", g.counts))));
     }
